@@ -6,6 +6,135 @@ ANCHORS = ['prover/insertion_proving_system.go', 'prover/deletion_proving_system
 HARNESS = ['c08_harness.go']
 
 
+def gen_test_params(run):
+    """the test-parameter generator (main.go, gen-test-params): for every (mode, depth, batch) it accepts, what it emits is a valid batch.
+    The Action closure is executed symbolically with the real poseidon_tree code (Poseidon uninterpreted); the parameter struct it hands to
+    ComputeInputHash* is checked against the batch relation in the same term algebra (ground terms: decided by congruence)."""
+    import z3, cli_model
+    from gosym import Unsupported, NIL, Big, Struct, Ptr
+    BIG = stubs.BIG
+    dims = [(d, b) for d in (1, 2, 3) for b in range(1, (1 << d) + 2)] if not run.thorough else [(d, b) for d in (1, 2, 3, 4) for b in range(1, (1 << d) + 2)]
+    try:
+        progm = cli_model.load_main()
+        smm, table, flagdefs, _ = cli_model.command_table(progm)
+    except Unsupported as x:
+        run.inconclusive.append('gen-test-params: unsupported by the encoder: %s' % x)
+        return
+    # real tree code instead of the CLI's API stubs; capture the parameter struct at the hash computation
+    captured = {}
+    for k in [k for k in smm if 'poseidon_tree' in k]:
+        del smm[k]
+
+    def capture(kind):
+        def f(ex, st, a, c):
+            captured[kind] = (ex, st, stubs.snapshot(ex, st, ex.load(st, a[0])))
+            return NIL
+        return f
+    P = 'worldcoin/gnark-mbu/prover.'
+    smm['(*' + P + 'InsertionParameters).ComputeInputHashInsertion'] = capture('insertion')
+    smm['(*' + P + 'DeletionParameters).ComputeInputHashDeletion'] = capture('deletion')
+    bad = []
+    t0 = __import__('time').time()
+    for mode in ('insertion', 'deletion'):
+        for depth, batch in dims:
+            captured.clear()
+            try:
+                rs, exc = cli_model.run_command(progm, smm, table, flagdefs, 'gen-test-params', loop_bound=80, fixed={'mode': mode, 'tree-depth': depth, 'batch-size': batch})
+            except Unsupported as x:
+                run.inconclusive.append('gen-test-params %s (%d,%d): unsupported by the encoder: %s' % (mode, depth, batch, x))
+                return
+            oks = [r for r in rs if r.status == 'ok']
+            if len(oks) != len([r for r in rs if r.status != 'infeasible']) or exc.incomplete:
+                badr = [r for r in rs if r.status not in ('ok', 'infeasible')]
+                run.inconclusive.append('gen-test-params %s (%d,%d): %s' % (mode, depth, batch, exc.incomplete or str(badr[0].info)[:160]))
+                continue
+            accepted = [r for r in oks if r.ret is NIL or r.ret is None]
+            if not accepted:
+                continue                      # the generator refuses this dimension: nothing is emitted
+            if mode not in captured:
+                run.inconclusive.append('gen-test-params %s (%d,%d): succeeded without computing an input hash' % (mode, depth, batch))
+                continue
+            ex, st, ps = captured[mode]
+            names = stubs.struct_fields(ex, ex.tid_by_str[P + ('InsertionParameters' if mode == 'insertion' else 'DeletionParameters')])
+            fld = dict(zip(names, ps.f))
+            H = stubs.uf(ex, 'poseidon2', *([z3.BitVecSort(BIG)] * 3))
+            big = lambda v: v.v
+            sl = lambda v: v[2] if isinstance(v, tuple) else []
+
+            def fold(leaf, idx, path):
+                cur = leaf
+                for j, sib in enumerate(path):
+                    cur = H(big(sib), cur) if (idx >> j) & 1 else H(cur, big(sib))
+                return cur
+            conds = []
+            root = big(fld['PreRoot'])
+            idc, mps = sl(fld['IdComms']), sl(fld['MerkleProofs'])
+            conds.append(z3.BoolVal(len(idc) == batch and len(mps) == batch and all(len(sl(m)) == depth for m in mps)))
+            if mode == 'insertion':
+                start = z3.simplify(fld['StartIndex']).as_long()
+                for i in range(min(batch, len(idc), len(mps))):
+                    idx = start + i
+                    conds.append(z3.BoolVal(idx < (1 << depth)))
+                    conds.append(fold(z3.BitVecVal(0, BIG), idx, sl(mps[i])) == root)
+                    root = fold(big(idc[i]), idx, sl(mps[i]))
+            else:
+                dis = sl(fld['DeletionIndices'])
+                conds.append(z3.BoolVal(len(dis) == batch))
+                for i in range(min(batch, len(idc), len(mps), len(dis))):
+                    idx = z3.simplify(dis[i]).as_long()
+                    if idx >> depth:               # skip flag: the slot changes nothing
+                        conds.append(z3.BoolVal((idx >> depth) == 1))
+                        continue
+                    conds.append(fold(big(idc[i]), idx, sl(mps[i])) == root)
+                    root = fold(z3.BitVecVal(0, BIG), idx, sl(mps[i]))
+            conds.append(root == big(fld['PostRoot']))
+            s_ = z3.Solver()
+            s_.set('timeout', 20000)
+            s_.add(*accepted[0].state.pc)
+            s_.add(z3.Not(z3.And(*conds)))
+            r = str(s_.check())
+            run.obligation('gen-test-params %s depth=%d batch=%d: the emitted parameters are a valid batch (Merkle relation over uninterpreted Poseidon, indices inside the tree)' % (mode, depth, batch),
+                           r, 'unsat', 0.0)
+            if r == 'sat':
+                bad.append((mode, depth, batch))
+    run.log('gen-test-params: %d dimensions in %.1fs, %d not valid' % (2 * len(dims), __import__('time').time() - t0, len(bad)))
+    if bad:
+        pick = [x for m_ in ('deletion', 'insertion') for x in [y for y in bad if y[0] == m_][:2]]
+        out = native_gen(pick)
+        for (mode, depth, batch), res in out:
+            if res['unprovable']:
+                run.violation('gen-test-params --mode %s --tree-depth %d --batch-size %d exits 0 but the emitted parameters are not provable -- reproduced with the built binary: %s' % (mode, depth, batch, res['log'][-1][:160]),
+                              {'mode': mode, 'depth': depth, 'batch': batch, 'native': res}, key='C08:gen-test-params:%s:%d:%d' % (mode, depth, batch))
+            else:
+                run.inconclusive.append('gen-test-params %s (%d,%d): invalid in the model but the built binary proves it' % (mode, depth, batch))
+
+
+def native_gen(dims):
+    import os, subprocess, tempfile
+    from common import REPO, GOENV, scratch
+    d = tempfile.mkdtemp(prefix='gtp_', dir=scratch())
+    exe = os.path.join(d, 'gnark-mbu')
+    p = subprocess.run(['go', 'build', '-o', exe, '.'], cwd=REPO, env=GOENV, stdout=subprocess.PIPE, stderr=subprocess.STDOUT, text=True)
+    out = []
+    for mode, depth, batch in dims:
+        res = {'unprovable': False, 'log': []}
+        if p.returncode:
+            res['log'].append('build failed')
+            out.append(((mode, depth, batch), res))
+            continue
+        sh = lambda args, stdin=None: subprocess.run([exe] + args, input=stdin, stdout=subprocess.PIPE, stderr=subprocess.PIPE, text=True, timeout=900, cwd=d)
+        keys = os.path.join(d, 'k_%s_%d_%d' % (mode, depth, batch))
+        q = sh(['setup', '--mode', mode, '--output', keys, '--tree-depth', str(depth), '--batch-size', str(batch)])
+        g = sh(['gen-test-params', '--mode', mode, '--tree-depth', str(depth), '--batch-size', str(batch)])
+        res['log'].append('setup rc=%d gen-test-params rc=%d' % (q.returncode, g.returncode))
+        if q.returncode == 0 and g.returncode == 0:
+            pr = sh(['prove', '--mode', mode, '--keys-file', keys], stdin=g.stdout)
+            res['log'].append('prove rc=%d %s' % (pr.returncode, pr.stderr[-200:].replace('\n', ' ')))
+            res['unprovable'] = pr.returncode != 0
+        out.append(((mode, depth, batch), res))
+    return out
+
+
 def main():
     run = Run('C08', anchors=ANCHORS)
 
@@ -19,6 +148,7 @@ def main():
             res, ex = driver.run_entry(run, prog, e, sm, loop_bound=8)
             run.log(e, {k: v for k, v in run.extra['paths'][e].items()}, 'solver calls', ex.solver_calls, '%.1fs' % ex.solver_time)
             driver.report(run, ex, 'prover', 'prover', HARNESS, e, res, keyfn=lambda en, msg, dr: 'C08:%s' % en)
+        gen_test_params(run)
         run.assumptions += sorted(stubs.USED) + ['batch size <= %d (harness bound, unwinding assertion checked)' % stubs.PARAMS['maxbatch'] + '; values < 2^256; indices any uint32',
                                                   'keccak256 uninterpreted: "hash equal for all inputs" is decided as "hashed byte strings equal for all inputs"']
         run.samples = run.obls[:4]
